@@ -18,7 +18,7 @@ def what_of(e):
 
 
 def selftest(ctx, trace, cfg):
-    lines = [l for l in lib.read_lines(trace)[:3000]]
+    lines = pc.sample_lines(trace)
 
     def corrupt(ls):
         # an accepted parse is turned into an abort
@@ -38,8 +38,9 @@ def selftest(ctx, trace, cfg):
 
     def drop(ls):
         # an event disappears: the id sequence of the shard has a gap
-        i = next(i for i in range(50, len(ls) - 2) if '"op":"parse"' in ls[i] and '"more":false' in ls[i]
-                 and json.loads(ls[i + 1])["id"] > json.loads(ls[i])["id"] > json.loads(ls[i - 1])["id"])
+        i = next(i for i in range(5, len(ls) - 2) if '"op":"parse"' in ls[i] and '"more":false' in ls[i] and '"op":"parse"' in ls[i + 1]
+                 and json.loads(ls[i + 1])["id"] > json.loads(ls[i])["id"] > json.loads(ls[i - 1])["id"]
+                 and json.loads(ls[i + 1])["id"] - json.loads(ls[i])["id"] == json.loads(ls[i])["id"] - json.loads(ls[i - 1])["id"])
         del ls[i]
         return ls, i + 1
 
@@ -64,11 +65,10 @@ def run(ctx):
     # one report per (format, kind of failure)
     pc.classify(ctx, v, run_, "drv_parse", what_of, group_of=lambda e: (e.get("fmt"), e.get("o") if e.get("o") not in ("ok", "err") else "alloc", e.get("mc", "")))
     selftest(ctx, run_.trace, cfg)
-    lines = lib.read_lines(run_.trace)
-    for want in ('"src":"model"', '"src":"mut"', '"src":"fixture"'):
-        l = next((x for x in lines if want in x and '"op":"parse"' in x), None)
-        if l:
-            ctx.cov["samples"].append({"source": want, "trace": [json.loads(l)]})
+    wants = ('"src":"model"', '"src":"mut"', '"src":"fixture"')
+    for want, e in zip(wants, pc.first_matching(run_.trace, [lambda l, w=w: w in l and '"op":"parse"' in l for w in wants])):
+        if e:
+            ctx.cov["samples"].append({"source": want, "trace": [e]})
     ctx.cov["traces_validated_against_impl"] = v.get("judged", 0)
     ctx.cov["evaluations"] = v.get("judged", 0)
     ctx.cov["distinct_nontrivial"] = d.get("distinct_inputs", 0)
